@@ -145,6 +145,11 @@ fn candidates(c: &Case) -> Vec<Case> {
             d.crash_points[i].second = None;
             out.push(d);
         }
+        if c.crash_points[i].hole {
+            let mut d = c.clone();
+            d.crash_points[i].hole = false;
+            out.push(d);
+        }
         if c.crash_points[i].lose_dirents > 0 {
             let mut d = c.clone();
             d.crash_points[i].lose_dirents = 0;
